@@ -172,7 +172,8 @@ Definition f_time_of (cs : fcase) (x : fctx) (k : Z) : Z :=
 
 Definition f_model_at (cs : fcase) (x : fctx) (ft : ftime) : nat -> nat -> cf :=
   let t := f_time_of cs x (ft_k ft) in
-  let idx := lin_index (x_D x - 2) (x_m x) (ft_k ft) in
+  (* coeff = ones(duration) is read with the indices of the sampling times *)
+  let idx := lin_index (x_D x - 1) (x_m x) (ft_k ft) in
   let unmasked_on := negb (idx <? f_mask_end cs)%Z in
   ham_model fops (x_d x) (f_n cs) (x_eb x) (x_xy x) (x_hi x) (x_md x)
             unmasked_on (f_mask cs) (f_mask_end cs) t (f_U cs (x_xy x))
@@ -181,17 +182,10 @@ Definition f_model_at (cs : fcase) (x : fctx) (ft : ftime) : nat -> nat -> cf :=
 Definition f_dev_at (cs : fcase) (x : fctx) (ft : ftime) : float :=
   max_dev (x_d x ^ f_n cs) (f_model_at cs x ft) (ft_H ft).
 
-(** to_nested_dict raises IndexError ([cs.slots[0]] of an XY Global channel
-    without pulses while an SLM mask is configured) *)
-Definition f_raises (cs : fcase) : bool :=
-  existsb (fun c => fc_global c && negb (fc_dmm c) && (fc_basis c =? 2)
-                    && (0 <? f_mask_end cs)%Z
-                    && match fc_slots c with [] => true | _ => false end)
-          (f_chans cs).
-
 Definition run_case (cs : fcase) : sv :=
   let x := f_ctx cs in
-  if f_raises cs then SL [SB true] else
+  (* first component: "the emulator cannot be built" - never, for a sequence
+     the constructor's own checks accept *)
   SL [SB false; SZ (Z.of_nat (x_d x));
       SL (map (fun s => SZ (Z.of_nat s)) (x_eb x));
       SZ (x_m x);
